@@ -256,6 +256,34 @@ def substConsts (d : List (Sym × Int)) (ss : List St) : List St :=
 def prependConsts (d : List (Sym × Expr)) (ss : List St) : List St :=
   d.map (fun p => St.assign p.1 p.2) ++ ss
 
+/-! ### replace_non_random_rvs: which random variables are "not actually random" -/
+
+/-- A distribution of `model.random_variables`: its random variables and its parameter names
+    (variances and covariances; a joint/BLOCK distribution has several of each). -/
+structure Dist where
+  rvs : List Sym
+  params : List Sym
+  deriving DecidableEq, Repr, Inhabited
+
+/-- The for/else loop: a distribution is dropped iff *every* parameter is `init == 0 and fix`
+    (`zf` = names of the parameters that are fixed to zero). -/
+def Dist.allZeroFix (zf : List Sym) (d : Dist) : Bool := d.params.all (fun p => zf.contains p)
+
+def removedDists (zf : List Sym) (dists : List Dist) : List Dist := dists.filter (Dist.allZeroFix zf)
+
+def keptDists (zf : List Sym) (dists : List Dist) : List Dist := dists.filter (fun d => !d.allZeroFix zf)
+
+/-- Keys of `d`: parameters and random variables of the dropped distributions. -/
+def nonRandomSyms (zf : List Sym) (dists : List Dist) : List Sym :=
+  (removedDists zf dists).flatMap (fun d => d.params ++ d.rvs)
+
+def nonRandomConsts (zf : List Sym) (dists : List Dist) : List (Sym × Int) :=
+  (nonRandomSyms zf dists).map (fun x => (x, 0))
+
+/-- `new_statements = model.statements.subs(d)`. -/
+def replaceNonRandom (zf : List Sym) (dists : List Dist) (ss : List St) : List St :=
+  substConsts (nonRandomConsts zf dists) ss
+
 /-! ### rename_symbols / greekify_model -/
 
 def renameE (r : Sym → Sym) : Expr → Expr
